@@ -1831,16 +1831,16 @@ def gen_audit(chk, rng):
     th = chk.tier == "thorough"
     m = 8 if th else 1
     cases = []
-    for _ in range(36 * m):
+    for _ in range(28 * m):
         cases.append(vary(rng, gen_norm_random(rng, malformed=rng.random() < 0.1), "entry"))
-    for _ in range(40 * m):
+    for _ in range(30 * m):
         c = gen_deltas_random(rng, malformed=rng.random() < 0.1)
         cases.append(vary(rng, c, "entry"))
-    for _ in range(30 * m):
+    for _ in range(22 * m):
         cases.append(vary(rng, gen_return_random(rng, malformed=rng.random() < 0.1), "entry"))
-    for _ in range(24 * m):
+    for _ in range(20 * m):
         cases.append(vary(rng, gen_ops_random(rng, malformed=rng.random() < 0.15), "entry"))
-    for _ in range(50 * m):
+    for _ in range(44 * m):
         cases.append(gen_ops_history2(rng))
     for _ in range(30 * m):
         cases.append(gen_deltas_layout(rng, far=True))
@@ -2044,6 +2044,20 @@ def run(chk, cases=None):
         "well conditioned",
         "float32 returns (stream 'float32'): |R_t - exact| <= (2T+8) u32 sum_{t'>=t} |gamma|^(t'-t) |r_t'| (gamma rounded to float32, "
         "pow, dot product), horizons up to 1100 with true returns far below the float32 range, non-finite values policed",
+        "robustness audit (streams entry / history2 / deltas-far / deltas-layout / return-boundary / names): the LOGICAL input of a "
+        "case is judged by the same Coq check term as before; what varies is (a) the entry point: function, keyword call, call with "
+        "the documented defaults omitted, torch.jit.script of the function, module (positional / keyword constructor), scripted "
+        "module; (b) the memory layout of every input tensor: transposed-contiguous-transposed, interior of a larger NaN-filled "
+        "buffer (storage offset), every second cell, stride-0 expand()ed; statistics vectors as float32 / non-contiguous / the SAME "
+        "object for mean and std; (c) the call history: the same callable twice on the same tensor objects (equal results, inputs "
+        "untouched), the input overwritten IN PLACE and passed again (= a fresh object on a fresh tensor), a module used before on "
+        "other data; for MeanVarianceNormalization: the same tensor object accumulated again, an object overwritten in place and "
+        "accumulated again, accumulates after the last non-deleting store (forward must still use the stored statistics), "
+        "statistics given to the constructor and then replaced / kept by a failing store, two module objects used in turns, "
+        "store() through omitted / positional / keyword flags; (d) boundaries: gamma exactly 1.0 / 0.0 / -0.0 / -1.0 and the ints "
+        "0, 1, 2 with T != N in both layouts; delta layouts with pairwise distinct axis sizes and the time axis >= 3 axes from the "
+        "end; (e) the command with non-default --file-prefix / --file-suffix, ids that are prefixes of each other or contain the "
+        "prefix / suffix, group ids 'None' / '1' / 'g1' / 'g10', decoy files that match only one of prefix and suffix",
     ]
     replaying = cases is not None
     cases = cases if cases is not None else gen_cases(chk)
